@@ -72,6 +72,9 @@ type Op struct {
 	WGDep bool `json:"wg_dep,omitempty"`
 	// Intra: lds exchange partner stays inside the item's own wavefront (rotation by Imm mod 64)
 	Intra bool `json:"intra,omitempty"`
+	// Sub: load: "" = dword(s); "u8", "i8", "u16" = flat_load_ubyte / sbyte / ushort of the byte or
+	// halfword at byte offset Imm (0-3; 0 or 2 for u16) inside element A & (len-1)
+	Sub string `json:"sub,omitempty"`
 	// N: sload: number of dwords (1, 2, 4, 8); load: 0/1 = one dword, 2 or 4 = a dwordx2/x4 load of
 	// consecutive dwords starting at element (A & (len/2-1)) + Imm (Imm in 0..3, so the access is only
 	// dword-aligned and may cross a cache line), XOR-ed together
@@ -317,6 +320,19 @@ func (p *Program) Validate() error {
 			}
 			if o.N > 1 && o.Imm > 3 {
 				err = fmt.Errorf("bad wide-load offset")
+			}
+			switch o.Sub {
+			case "":
+			case "u8", "i8":
+				if o.N > 1 || o.Imm > 3 {
+					err = fmt.Errorf("bad byte load")
+				}
+			case "u16":
+				if o.N > 1 || (o.Imm != 0 && o.Imm != 2) {
+					err = fmt.Errorf("bad halfword load")
+				}
+			default:
+				err = fmt.Errorf("bad sub-dword kind")
 			}
 		case "sload":
 			if o.K < 0 || o.K > 1 {
